@@ -76,7 +76,11 @@ func (b *logBinder) Bind(_ kubernetes.Interface, tasks []*api.TaskInfo) map[api.
 	}
 	return errMsg
 }
-func (b *logBinder) pairs() [][2]int64 { b.mu.Lock(); defer b.mu.Unlock(); return append([][2]int64{}, b.log...) }
+func (b *logBinder) pairs() [][2]int64 {
+	b.mu.Lock()
+	defer b.mu.Unlock()
+	return append([][2]int64{}, b.log...)
+}
 func (b *logBinder) has(t, n int64) bool {
 	for _, p := range b.pairs() {
 		if p[0] == t && p[1] == n {
@@ -167,7 +171,7 @@ func runAgent(in []int64) ([]int64, []int64) {
 	removedWhileHolding := map[int64]bool{}
 	forgotten := map[[2]int64]bool{} // (pod, node) pairs the cache dropped with a removed node
 	forgot := false
-	var queued []int      // accepted calls whose bind has not been executed yet
+	var queued []int       // accepted calls whose bind has not been executed yet
 	var batchObs [][]int64 // law 117
 	step := func(i int) error {
 		it := b.Items[i]
